@@ -71,7 +71,7 @@ func vc09Inconcl(format string, args ...interface{}) error {
 	return &vc09Inconclusive{fmt.Sprintf(format, args...)}
 }
 
-var vc09HexRun = regexp.MustCompile(`(\\x[0-9a-f]{2})+`)
+var vc09RetRe = regexp.MustCompile(`\)\s+= `)
 
 func vc09Unhex(s string) ([]byte, error) {
 	// s consists of \xNN groups only
@@ -213,7 +213,10 @@ func vc09ParseTrace(tracePath, dataDir string) (*vc09Trace, error) {
 		}
 		// NAME(ARGS) = RET ...
 		op := strings.IndexByte(rest, '(')
-		eq := strings.LastIndex(rest, ") = ")
+		eq, eqEnd := -1, -1
+		if locs := vc09RetRe.FindAllStringIndex(rest, -1); len(locs) > 0 {
+			eq, eqEnd = locs[len(locs)-1][0], locs[len(locs)-1][1]
+		}
 		if op <= 0 || eq < op {
 			if strings.Contains(rest, hexDir) {
 				return nil, vc09Inconcl("trace line %d mentions the data dir but does not parse: %.120q", lineNo, rest)
@@ -222,7 +225,7 @@ func vc09ParseTrace(tracePath, dataDir string) (*vc09Trace, error) {
 		}
 		name := rest[:op]
 		args := vc09SplitArgs(rest[op+1 : eq])
-		retStr := strings.TrimSpace(rest[eq+4:])
+		retStr := strings.TrimSpace(rest[eqEnd:])
 		retTok := retStr
 		if i := strings.IndexAny(retTok, " <"); i >= 0 {
 			retTok = retTok[:i]
@@ -559,6 +562,9 @@ func (fs *vc09FS) apply(o *vc09Op) (changed bool, err error) {
 		ino.data = nil
 		return ch, nil
 	case "bind":
+		if fs.dirs[o.Path] {
+			return false, nil // a directory opened for reading
+		}
 		ino := fs.files[o.Path]
 		if ino == nil {
 			return false, fmt.Errorf("open %s: no such file", o.Path)
